@@ -72,10 +72,19 @@ type c14Obs struct {
 	Detail   string
 }
 
+// encoderGoroutines counts the goroutines that are running, or were started by, any code of the
+// repository's laptimer package (whatever the functions are called): after Encode has returned
+// there must be none.
 func encoderGoroutines() int {
-	buf := make([]byte, 1<<20)
+	buf := make([]byte, 4<<20)
 	n := runtime.Stack(buf, true)
-	return strings.Count(string(buf[:n]), "laptimer.(*Encoder)")
+	c := 0
+	for _, g := range strings.Split(string(buf[:n]), "\n\n") {
+		if strings.Contains(g, "stevenh/tracktools/pkg/laptimer") {
+			c++
+		}
+	}
+	return c
 }
 
 func c14Run(in c14Input, r *Rng) c14Obs {
